@@ -117,6 +117,109 @@ func runConc(c *Ctx) {
 	c.Stats.Rule = "concurrent histories on one index (2-16 goroutines, 20-40 overlapping ids, single-writer+readers and many-writers modes); non-trivial = some id has overlapping insert/remove calls from different goroutines, or a search overlaps a removal; distinct = (mode, goroutines, seed)"
 	rng := NewRng(c.Seed)
 	rounds := c.ArgInt("rounds", c.Pick(24, 300))
+	// ---- read-only: many searches at once on an index nobody writes to. Every answer must meet C01's
+	// post-condition exactly as a sequential search does (live items, true scores, ascending, no id twice,
+	// at most k, non-empty): searches share nothing they may write. Reported for C01 and for C13.
+	for variant := 0; variant < 2; variant++ {
+		c.Begin(fmt.Sprintf("concurrent read-only searches on a static index (variant %d)", variant))
+		r := rng.Fork()
+		sp, spName := newSpace(variant)
+		g := hnswCfg{m: 6, ef: 24, efC: 48, heur: variant == 1, keep: true}
+		g.mMax, g.mMax0 = g.m, 2*g.m
+		dim := 4
+		h := index.NewHnsw(uint(dim), sp, g.options()...)
+		N := c.Pick(1200, 4000)
+		vecs := genVectors(r, N+1, dim, false)
+		live := make([]bool, N+1)
+		for id := 1; id <= N; id++ {
+			if err := h.Insert(rid(id), vecs[id], index.Metadata{"n": fmt.Sprint(id)}, r.Intn(3)); err == nil {
+				live[id] = true
+			}
+		}
+		for id := 1; id <= N; id++ {
+			if r.Intn(10) == 0 {
+				if h.Remove(rid(id)) == nil {
+					live[id] = false
+				}
+			}
+		}
+		G := 16
+		per := c.Pick(500, 6000)
+		var mu sync.Mutex
+		fails := map[string]string{}
+		fail := func(clause, what string) {
+			mu.Lock()
+			if _, ok := fails[clause]; !ok {
+				fails[clause] = what
+			}
+			mu.Unlock()
+		}
+		var wg sync.WaitGroup
+		for gi := 0; gi < G; gi++ {
+			gr := r.Fork()
+			wg.Add(1)
+			go func(gr *Rng) {
+				defer wg.Done()
+				defer func() {
+					if p := recover(); p != nil {
+						fail("panic", fmt.Sprint(p))
+					}
+				}()
+				for i := 0; i < per; i++ {
+					q := make(amath.Vector, dim)
+					for j := range q {
+						q[j] = float32(gr.Norm())
+					}
+					k := 1 + gr.Intn(20)
+					res, err := h.Search(context.Background(), q, uint(k))
+					if err != nil {
+						fail("error", err.Error())
+						continue
+					}
+					if len(res) > k {
+						fail("more-than-k", fmt.Sprintf("k=%d, %d items", k, len(res)))
+					}
+					if len(res) == 0 {
+						fail("empty", fmt.Sprintf("k=%d on an index of %d items", k, h.Len()))
+					}
+					seen := map[int]int{}
+					for pos, x := range res {
+						id := int(x.Id[0]) | int(x.Id[1])<<8 // (idn() memoises in a shared map: not from goroutines)
+						if prev, dup := seen[id]; dup {
+							fail("duplicate-id", fmt.Sprintf("id %d at positions %d and %d of one answer (k=%d)", id, prev, pos, k))
+						}
+						seen[id] = pos
+						if id < 1 || id > N || x.Id != rid(id) || !live[id] {
+							fail("not-live", fmt.Sprintf("id %d is not stored", id))
+							continue
+						}
+						if f32bits(sp.Distance(q, vecs[id])) != f32bits(x.Score) {
+							fail("score", fmt.Sprintf("id %d returned with score %v, its distance is %v", id, x.Score, sp.Distance(q, vecs[id])))
+						}
+						if x.Metadata["n"] != fmt.Sprint(id) {
+							fail("metadata", fmt.Sprintf("id %d returned with metadata %v", id, x.Metadata))
+						}
+						if pos > 0 && res[pos-1].Score > x.Score {
+							fail("unsorted", fmt.Sprintf("scores %v then %v", res[pos-1].Score, x.Score))
+						}
+					}
+				}
+			}(gr)
+		}
+		wg.Wait()
+		c.OpLocal("%s, heuristic=%v: %d items (%d live), %d goroutines x %d searches, k in 1..20", spName, g.heur, N, h.Len(), G, per)
+		c.Stats.Evaluations += G * per / 1000
+		for clause, what := range fails {
+			msg := "with " + fmt.Sprint(G) + " searches running at once on an index nobody writes to, an answer violates the search post-condition (" + clause + "): " + what
+			c.Violate("C01", "C01/concurrent-readers/"+clause, msg, c.History())
+			c.Violate("C13", "C13/concurrent-readers/"+clause, msg, c.History())
+		}
+		c.Nontrivial("concurrent-readers")
+		c.End()
+	}
+	if c.Args["mode"] == "readers" {
+		return
+	}
 	// ---- deterministic witness of D23: a search that starts between the tombstone and the entry hand-over
 	{
 		c.Begin("corpus-D23 search during remove of the entry point")
